@@ -22,6 +22,10 @@ class BuiltinMixin:
 
     def bi_len(self, p, args, kwargs, node):
         v = args[0]
+        if isinstance(v, VOpaque) and self.lenient:
+            n = z3.Int(fresh_name("opaque_len"))
+            p.assume(n >= 0)
+            return [(p, VInt(n))]
         if isinstance(v, VTup):
             return [(p, VInt(len(v.items)))]
         if isinstance(v, VSeq):
@@ -193,6 +197,8 @@ class BuiltinMixin:
         return self._minmax(p, args, kwargs, node, False)
 
     def _minmax(self, p, args, kwargs, node, is_max):
+        if any(isinstance(a, VOpaque) for a in args):
+            return [(p, VOpaque("min/max of unmodelled values"))]
         if any(isinstance(a, VOpt) for a in args):
             return self.deopt(p, args, f"L{getattr(node, 'lineno', '?')}", lambda q, un: self._minmax(q, un, kwargs, node, is_max))
         if len(args) >= 2 and all(isinstance(a, (VInt, VBool)) for a in args):
@@ -286,6 +292,8 @@ class BuiltinMixin:
         return self.hasattr_extra(p, args, node)
 
     def hasattr_extra(self, p, args, node):
+        if self.lenient:
+            return [(p, VBool(z3.Bool(fresh_name("opaque_hasattr"))))]
         raise Unsupported("hasattr")
 
     def bi_getattr(self, p, args, kwargs, node):
@@ -295,6 +303,8 @@ class BuiltinMixin:
             if c.eq(name.z):
                 nm = s
         if nm is None:
+            if self.lenient:
+                return [(p, VOpaque("getattr"))]
             raise Unsupported("getattr with non-literal name")
         if isinstance(obj, VOpaque):
             return [(p, VOpaque(f"{obj.what}.{nm}"))]
@@ -313,12 +323,29 @@ class BuiltinMixin:
     def bi_sum(self, p, args, kwargs, node):
         raise Unsupported("sum()")
 
+    def _opaque_pred(self, p, args):
+        if args and isinstance(args[0], VOpaque):
+            return [(p, VBool(z3.Bool(fresh_name("opaque_anyall"))))]
+        return None
+
     def bi_any(self, p, args, kwargs, node):
+        r = self._opaque_pred(p, args)
+        if r is not None:
+            return r
+        return self._bi_any(p, args, kwargs, node)
+
+    def bi_all(self, p, args, kwargs, node):
+        r = self._opaque_pred(p, args)
+        if r is not None:
+            return r
+        return self._bi_all(p, args, kwargs, node)
+
+    def _bi_any(self, p, args, kwargs, node):
         s = self.to_seq(args[0], p) if not isinstance(args[0], VSeq) else args[0]
         i = z3.Int(fresh_name("ai"))
         return [(p, VBool(z3.Exists([i], z3.And(0 <= i, i < s.len, self.truth(s.at(i), p)))))]
 
-    def bi_all(self, p, args, kwargs, node):
+    def _bi_all(self, p, args, kwargs, node):
         s = self.to_seq(args[0], p) if not isinstance(args[0], VSeq) else args[0]
         i = z3.Int(fresh_name("ai"))
         return [(p, VBool(z3.ForAll([i], z3.Implies(z3.And(0 <= i, i < s.len), self.truth(s.at(i), p)))))]
@@ -348,6 +375,12 @@ class BuiltinMixin:
         raise Unsupported(f"method {name} on {recv!r}")
 
     def str_method(self, p, recv, name, args, kwargs, node):
+        from . import types as T
+        if T._USE_Z3_STRINGS:
+            if name == "startswith" and isinstance(args[0], VStr):
+                return [(p, VBool(z3.PrefixOf(args[0].z, recv.z)))]
+            if name == "endswith" and isinstance(args[0], VStr):
+                return [(p, VBool(z3.SuffixOf(args[0].z, recv.z)))]
         raise Unsupported(f"str.{name}")
 
     def seq_count(self, s: VSeq, v: V):
